@@ -233,9 +233,9 @@ fn poly_case(ctx: &mut Ctx, rng: &mut Rng, idx: usize) {
 
 pub fn run(ctx: &mut Ctx) {
     let reps = ctx.by_tier(40u64, 1500);
-    for k in 0..(NAMES.len() as u64 * reps) { ctx.case("cone", k, |c, r| cone_case(c, r, k as usize)) }
+    ctx.random_cases("cone", NAMES.len() as u64 * reps, |c, r| { let k = c.cur_idx() as usize; cone_case(c, r, k) });
     let reps2 = ctx.by_tier(20u64, 600);
-    for k in 0..(NAMES.len() as u64 * reps2) { ctx.case("poly", k, |c, r| poly_case(c, r, k as usize)) }
+    ctx.random_cases("poly", NAMES.len() as u64 * reps2, |c, r| { let k = c.cur_idx() as usize; poly_case(c, r, k) });
     let _ = |x: &dyn Fn() -> bool| x();
     let _: Option<&dyn Fn(&FF2) -> bool> = None;
     let _ = <FF2 as KhRing>::rname;
